@@ -8,7 +8,15 @@ stderr messages, the self-pipe write of the signal handler) is dropped.
 """
 import re
 
-HOOKED = "[HUP INT USR1 PIPE ALRM TERM TSTP XCPU XFSZ]"
+# signals_block()/signals_unblock(): SIG_BLOCK / SIG_UNBLOCK of a positive set that contains the termination
+# signals (glibc itself only uses ~[...] or [] masks with SIG_BLOCK / SIG_SETMASK)
+MASK = re.compile(r"^SIG_(BLOCK|UNBLOCK), \[([A-Z0-9_ ]+)\]")
+
+def hooked(args):
+    m = MASK.match(args)
+    if m and ({"INT", "TERM", "HUP", "PIPE"} & set(m.group(2).split())):
+        return m.group(1), m.group(2).split()
+    return None
 LINE = re.compile(r"^(\d+)\s+(.*)$")
 CALL = re.compile(r"^(\w+)\((.*)\)\s+= (-?\d+|\?|0x[0-9a-f]+)(?: (E[A-Z0-9]+) \([^)]*\))?(?: \(.*\))?\s*$")
 STR = re.compile(r'"((?:[^"\\]|\\.)*)"')
@@ -33,7 +41,7 @@ def _merge(text):
         pid, rest = int(m.group(1)), m.group(2)
         if rest.endswith("<unfinished ...>"):
             out.append([pid, None])
-            pend[pid] = (len(out) - 1, rest[:-len("<unfinished ...>")])
+            pend[pid] = (len(out) - 1, rest[:-len("<unfinished ...>")].rstrip())
             continue
         m2 = re.match(r"^<\.\.\. (\w+) resumed>(.*)$", rest)
         if m2 and pid in pend:
@@ -140,7 +148,7 @@ def parse(text, roles, sigsend=None, cwd=None):
             if role == "list" and res == "ok":
                 fdrole[int(ret)] = ("list", 0)
         if not started:
-            if (name == "rt_sigprocmask" and HOOKED in args) or (name == "read" and fdrole.get(fd, ("", 0))[0] == "list"):
+            if (name == "rt_sigprocmask" and hooked(args)) or (name == "read" and fdrole.get(fd, ("", 0))[0] == "list"):
                 started = True
             else:
                 continue
@@ -155,8 +163,9 @@ def parse(text, roles, sigsend=None, cwd=None):
             role, f = "out", curf
         # ---- the calls
         if name == "rt_sigprocmask":
-            if HOOKED in args:
-                emit("Block" if "SIG_BLOCK" in args else "Unblock" if "SIG_UNBLOCK" in args else "Unexpected", call=l[:80])
+            h = hooked(args)
+            if h:
+                emit("Block" if h[0] == "BLOCK" else "Unblock", set=h[1])
         elif name == "openat" and strs:
             prole, pf = path_role(strs[0])
             if prole == "src":
@@ -192,7 +201,7 @@ def parse(text, roles, sigsend=None, cwd=None):
             if role == "src":
                 emit("Fadvise", f=f, res=res)
         elif name == "read":
-            m2 = re.search(r", (\d+)$", args)
+            m2 = re.search(r", (\d+)\s*$", args)
             req = int(m2.group(1)) if m2 else -1
             if shim_req is not None:
                 req, shim_req = shim_req, None
@@ -201,11 +210,11 @@ def parse(text, roles, sigsend=None, cwd=None):
                 kk = res if res != "ok" else ("eof" if n == 0 else "full" if n == req else "short")
                 emit("Read", f=f, k=kk, req=req, n=n)
             elif role == "list":
-                emit("ListRead", k=("err" if res != "ok" else "eof" if n == 0 else "data"), res=res)
+                emit("ListRead", k=(res if res != "ok" else "eof" if n == 0 else "data"), res=res)
             elif role in ("dst", "dir", "out"):
                 emit("Unexpected", call=l[:120])
         elif name == "write":
-            m2 = re.search(r", (\d+)$", args)
+            m2 = re.search(r", (\d+)\s*$", args)
             req = int(m2.group(1)) if m2 else -1
             if shim_req is not None:
                 req, shim_req = shim_req, None
